@@ -46,27 +46,71 @@ fn cmp_res<R: PartialEq + Debug>(acc: &mut Acc, tn: &str, site: &str, got: Resul
 
 /// tolerant rule for horizontal reductions under overflow checks (DESIGN C13):
 /// `must` = a panic is required, `may` = a panic is allowed (some association overflows)
+/// exact integer with two views: `e` saturating (exact whenever |value| < 2^127, which includes every
+/// value that could fit a lane type) and `w` wrapping (exact modulo 2^128, for the release-mode value)
+#[derive(Clone, Copy, Debug, PartialEq)]
+struct X {
+    e: i128,
+    w: i128,
+}
+impl X {
+    fn new(v: i128) -> X {
+        X { e: v, w: v }
+    }
+    fn abs(self) -> X {
+        if self.e < 0 {
+            -self
+        } else {
+            self
+        }
+    }
+}
+impl Add for X {
+    type Output = X;
+    fn add(self, o: X) -> X {
+        X { e: self.e.saturating_add(o.e), w: self.w.wrapping_add(o.w) }
+    }
+}
+impl Sub for X {
+    type Output = X;
+    fn sub(self, o: X) -> X {
+        X { e: self.e.saturating_sub(o.e), w: self.w.wrapping_sub(o.w) }
+    }
+}
+impl Mul for X {
+    type Output = X;
+    fn mul(self, o: X) -> X {
+        X { e: self.e.saturating_mul(o.e), w: self.w.wrapping_mul(o.w) }
+    }
+}
+impl Neg for X {
+    type Output = X;
+    fn neg(self) -> X {
+        X { e: self.e.saturating_neg(), w: self.w.wrapping_neg() }
+    }
+}
+
 #[derive(Clone, Copy)]
 struct Red {
-    val: i128,
+    val: X,
     must: bool,
     may: bool,
 }
 
-fn fits(v: i128, min: i128, max: i128) -> bool {
-    v >= min && v <= max
+fn fits(v: X, min: i128, max: i128) -> bool {
+    v.e >= min && v.e <= max
 }
 
 /// sum of terms: required panic if the exact total does not fit; allowed if some subset sum does not
-fn red_sum(terms: &[i128], min: i128, max: i128, pre_must: bool) -> Red {
+fn red_sum(terms: &[X], min: i128, max: i128, pre_must: bool) -> Red {
     let n = terms.len();
-    let tot: i128 = terms.iter().sum();
+    let tot = terms.iter().fold(X::new(0), |a, b| a + *b);
     let mut may = false;
     for m in 1u32..(1 << n) {
-        let mut s = 0i128;
+        let mut s = X::new(0);
         for i in 0..n {
             if m >> i & 1 == 1 {
-                s += terms[i];
+                s = s + terms[i];
             }
         }
         may |= !fits(s, min, max);
@@ -74,29 +118,27 @@ fn red_sum(terms: &[i128], min: i128, max: i128, pre_must: bool) -> Red {
     let must = pre_must || !fits(tot, min, max);
     Red { val: tot, must, may: may || must }
 }
-fn red_prod(terms: &[i128], min: i128, max: i128) -> Red {
+fn red_prod(terms: &[X], min: i128, max: i128) -> Red {
     let n = terms.len();
     // magnitudes are capped at 2^70 (beyond every lane type's range; a later factor 0 still gives 0),
     // so the `fits` flags are exact; the value is kept modulo 2^128 by wrapping multiplication
-    let cap = |s: i128| if s.abs() > (1i128 << 70) { s.signum() << 70 } else { s };
-    let mut tot = 1i128;
-    let mut val = 1i128;
+    let cap = |s: X| if s.e.unsigned_abs() > (1u128 << 70) { X { e: s.e.signum() << 70, w: s.w } } else { s };
+    let mut tot = X::new(1);
     for t in terms {
-        tot = cap(tot.saturating_mul(*t));
-        val = val.wrapping_mul(*t);
+        tot = cap(tot * *t);
     }
     let mut may = false;
     for m in 1u32..(1 << n) {
-        let mut s = 1i128;
+        let mut s = X::new(1);
         for i in 0..n {
             if m >> i & 1 == 1 {
-                s = cap(s.saturating_mul(terms[i]));
+                s = cap(s * terms[i]);
             }
         }
         may |= !fits(s, min, max);
     }
     let must = !fits(tot, min, max);
-    Red { val, must, may: may || must }
+    Red { val: tot, must, may: may || must }
 }
 
 macro_rules! c13_type {
@@ -234,8 +276,8 @@ macro_rules! c13_type {
                 c13_type!(@mixed $kind, acc, TN, va, a, b, nz, $OT, $OS, N);
                 c13_type!(@signed_binary $kind, acc, TN, va, vb, a, b, nz, N, S, lw, ctx, ovf, smin, smax, $N);
                 // ---- horizontal reductions
-                let ai: Vec<i128> = a.iter().map(|x| *x as i128).collect();
-                let bi: Vec<i128> = b.iter().map(|x| *x as i128).collect();
+                let ai: Vec<X> = a.iter().map(|x| X::new(*x as i128)).collect();
+                let bi: Vec<X> = b.iter().map(|x| X::new(*x as i128)).collect();
                 macro_rules! red {
                     ($site:literal, $got:expr, $r:expr, $RT:ty, $rmin:expr, $rmax:expr) => {{
                         let got = catch(|| $got);
@@ -243,47 +285,47 @@ macro_rules! c13_type {
                         let ok = match &got {
                             Ok(g) => {
                                 if ovf {
-                                    !r.must && (*g as i128) == r.val
+                                    !r.must && (*g as i128) == r.val.e
                                 } else {
-                                    *g == (r.val as $RT)
+                                    *g == (r.val.w as $RT)
                                 }
                             }
                             Err(_) => ovf && r.may,
                         };
                         acc.eval(nz, got.as_ref().map(|g| *g as u64).unwrap_or(0xdead));
                         if !ok {
-                            acc.fail(&format!("{TN}::{}", $site), format!("a={:?} b={:?} got={:?} exact={} must_panic={} may_panic={} overflow_checks={}", a, b, got, r.val, r.must, r.may, ovf));
+                            acc.fail(&format!("{TN}::{}", $site), format!("a={:?} b={:?} got={:?} exact={:?} must_panic={} may_panic={} overflow_checks={}", a, b, got, r.val.e, r.must, r.may, ovf));
                         }
                     }};
                 }
                 {
-                    let prods: Vec<i128> = (0..N).map(|i| ai[i] * bi[i]).collect();
+                    let prods: Vec<X> = (0..N).map(|i| ai[i] * bi[i]).collect();
                     let pm = prods.iter().any(|p| !fits(*p, smin, smax));
                     red!("dot", va.dot(vb), red_sum(&prods, smin, smax, pm), S, smin, smax);
                     let got = catch(|| va.dot_into_vec(vb).to_array());
                     let r = red_sum(&prods, smin, smax, pm);
                     let ok = match &got {
-                        Ok(g) => g.iter().all(|x| if ovf { !r.must && (*x as i128) == r.val } else { *x == r.val as S }),
+                        Ok(g) => g.iter().all(|x| if ovf { !r.must && (*x as i128) == r.val.e } else { *x == r.val.w as S }),
                         Err(_) => ovf && r.may,
                     };
                     acc.eval(nz, 1);
                     if !ok {
-                        acc.fail(&format!("{TN}::dot_into_vec"), format!("a={:?} b={:?} got={:?} exact={}", a, b, got, r.val));
+                        acc.fail(&format!("{TN}::dot_into_vec"), format!("a={:?} b={:?} got={:?} exact={:?}", a, b, got, r.val.e));
                     }
-                    let sq: Vec<i128> = (0..N).map(|i| ai[i] * ai[i]).collect();
+                    let sq: Vec<X> = (0..N).map(|i| ai[i] * ai[i]).collect();
                     let sm = sq.iter().any(|p| !fits(*p, smin, smax));
                     red!("length_squared", va.length_squared(), red_sum(&sq, smin, smax, sm), S, smin, smax);
                     red!("element_sum", va.element_sum(), red_sum(&ai, smin, smax, false), S, smin, smax);
                     red!("element_product", va.element_product(), red_prod(&ai, smin, smax), S, smin, smax);
                     // manhattan / chebyshev: results in the unsigned counterpart type
-                    let ad: Vec<i128> = (0..N).map(|i| (ai[i] - bi[i]).abs()).collect();
+                    let ad: Vec<X> = (0..N).map(|i| (ai[i] - bi[i]).abs()).collect();
                     red!("manhattan_distance", va.manhattan_distance(vb), red_sum(&ad, umin, umax, false), $US, umin, umax);
-                    let tot: i128 = ad.iter().sum();
+                    let tot = ad.iter().fold(X::new(0), |a, b| a + *b);
                     let got = catch(|| va.checked_manhattan_distance(vb));
-                    let want = if fits(tot, umin, umax) { Some(tot as $US) } else { None };
+                    let want = if fits(tot, umin, umax) { Some(tot.w as $US) } else { None };
                     cmp_res(acc, TN, "checked_manhattan_distance", got, Ok(want), nz, &ctx);
                     let got = catch(|| va.chebyshev_distance(vb));
-                    cmp_res(acc, TN, "chebyshev_distance", got, Ok(*ad.iter().max().unwrap() as $US), nz, &ctx);
+                    cmp_res(acc, TN, "chebyshev_distance", got, Ok(ad.iter().map(|x| x.e).max().unwrap() as $US), nz, &ctx);
                 }
                 // min/max element and positions
                 {
@@ -588,7 +630,7 @@ macro_rules! c13_type {
             let mut must = false;
             let mut terms = vec![];
             for i in 0..$N {
-                let d = $a[i] as i128 - $b[i] as i128;
+                let d = X::new($a[i] as i128) - X::new($b[i] as i128);
                 must |= !fits(d, $smin, $smax);
                 // in wrapping arithmetic the square of the wrapped difference is congruent to the exact square
                 let sq = d * d;
@@ -600,16 +642,16 @@ macro_rules! c13_type {
             let ok = match &got {
                 Ok(g) => {
                     if $ovf {
-                        !r.must && (*g as i128) == r.val
+                        !r.must && (*g as i128) == r.val.e
                     } else {
-                        *g == (r.val as $S)
+                        *g == (r.val.w as $S)
                     }
                 }
                 Err(_) => $ovf && r.may,
             };
             $acc.eval($nz, got.as_ref().map(|g| *g as u64).unwrap_or(0xdead));
             if !ok {
-                $acc.fail(&format!("{}::distance_squared", $TN), format!("a={:?} b={:?} got={:?} exact={} must={} may={}", $a, $b, got, r.val, r.must, r.may));
+                $acc.fail(&format!("{}::distance_squared", $TN), format!("a={:?} b={:?} got={:?} exact={:?} must={} may={}", $a, $b, got, r.val.e, r.must, r.may));
             }
         }
     }};
@@ -619,7 +661,7 @@ macro_rules! c13_type {
     (@dim 3, $kind:ident, $acc:ident, $TN:ident, $va:ident, $vb:ident, $a:ident, $b:ident, $ai:ident, $bi:ident, $nz:ident, $ovf:ident, $smin:ident, $smax:ident, $S:ident, $ctx:ident) => {{
         let got = catch(|| $va.cross($vb).to_array());
         let mut must = false;
-        let mut w = [0i128; 3];
+        let mut w = [X::new(0); 3];
         for (k, (i, j)) in [(1usize, 2usize), (2, 0), (0, 1)].iter().enumerate() {
             let p = $ai[*i] * $bi[*j];
             let q = $ai[*j] * $bi[*i];
@@ -627,7 +669,7 @@ macro_rules! c13_type {
             w[k] = p - q;
         }
         let ok = match &got {
-            Ok(g) => (!$ovf || !must) && (0..3).all(|k| g[k] == w[k] as $S),
+            Ok(g) => (!$ovf || !must) && (0..3).all(|k| g[k] == w[k].w as $S),
             Err(_) => $ovf && must,
         };
         $acc.eval($nz, got.as_ref().map(|g| g[0] as u64 ^ ((g[1] as u64) << 20) ^ ((g[2] as u64) << 40)).unwrap_or(0xdead));
@@ -641,7 +683,7 @@ macro_rules! c13_type {
             let got = catch(|| $va.perp().to_array());
             let must = !fits(-$ai[1], $smin, $smax);
             let ok = match &got {
-                Ok(g) => (!$ovf || !must) && g[0] == (-$ai[1]) as $S && g[1] == $a[0],
+                Ok(g) => (!$ovf || !must) && g[0] == (-$ai[1]).w as $S && g[1] == $a[0],
                 Err(_) => $ovf && must,
             };
             $acc.eval($nz, 1);
@@ -650,7 +692,7 @@ macro_rules! c13_type {
             }
         }
         // perp_dot = x*rhs.y - y*rhs.x ; rotate = (x*rx - y*ry, y*rx + x*ry)
-        let two = |p: i128, q: i128, minus: bool| -> (i128, bool) {
+        let two = |p: X, q: X, minus: bool| -> (X, bool) {
             let r = if minus { p - q } else { p + q };
             (r, !fits(p, $smin, $smax) || !fits(q, $smin, $smax) || !fits(r, $smin, $smax))
         };
@@ -658,12 +700,12 @@ macro_rules! c13_type {
             let (w, must) = two($ai[0] * $bi[1], $ai[1] * $bi[0], true);
             let got = catch(|| $va.perp_dot($vb));
             let ok = match &got {
-                Ok(g) => (!$ovf || !must) && *g == w as $S,
+                Ok(g) => (!$ovf || !must) && *g == w.w as $S,
                 Err(_) => $ovf && must,
             };
             $acc.eval($nz, 2);
             if !ok {
-                $acc.fail(&format!("{}::perp_dot", $TN), format!("a={:?} b={:?} got={:?} exact={}", $a, $b, got, w));
+                $acc.fail(&format!("{}::perp_dot", $TN), format!("a={:?} b={:?} got={:?} exact={:?}", $a, $b, got, w.e));
             }
         }
         {
@@ -673,12 +715,12 @@ macro_rules! c13_type {
             let must = m0 || m1;
             let got = catch(|| $va.rotate($vb).to_array());
             let ok = match &got {
-                Ok(g) => (!$ovf || !must) && g[0] == w0 as $S && g[1] == w1 as $S,
+                Ok(g) => (!$ovf || !must) && g[0] == w0.w as $S && g[1] == w1.w as $S,
                 Err(_) => $ovf && must,
             };
             $acc.eval($nz, 3);
             if !ok {
-                $acc.fail(&format!("{}::rotate", $TN), format!("a={:?} b={:?} got={:?} exact=({}, {})", $a, $b, got, w0, w1));
+                $acc.fail(&format!("{}::rotate", $TN), format!("a={:?} b={:?} got={:?} exact=({:?}, {:?})", $a, $b, got, w0.e, w1.e));
             }
         }
     }};
